@@ -43,6 +43,20 @@ Theorem C17_history_free_now : history_free Globals.table = true.
 Proof. vm_compute. reflexivity. Qed.
 Print Assumptions C17_history_free_now.
 
+(* API functions that keep the caller's mutable container instead of a copy (heap aliasing: two problems given
+   the same list / dict / ndarray share it).  The ones of the frozen HEAD are open known findings; a new one
+   breaks this obligation. *)
+Definition known_arg_alias : list string := [
+  "data_inputs/transform.py:Transform.displacement_vector(vector)";   (* F-C17-transform-array-alias *)
+  "data_inputs/transform.py:Transform.rotation_matrix(matrix)";       (* F-C17-transform-array-alias *)
+  "data_inputs/fill.py:Fill.universes(value)";                        (* F-C17-fill-universes-alias *)
+  "cell.py:Cell.parameters(params)";                                  (* F-C17-cell-parameters-alias *)
+  "numbered_object_collection.py:NumberedObjectCollection.__init__(objects)"  (* F-C17-collection-list-alias *)
+].
+Theorem C17_arg_alias_obligation : arg_alias_known known_arg_alias Globals.table = true.
+Proof. vm_compute. reflexivity. Qed.
+Print Assumptions C17_arg_alias_obligation.
+
 (* read_input_syntax kills reading_queue before anything reads it; MCNP_Parser.parse kills the shared log *)
 Theorem C17_reset_flags_hold : flags_of Globals.table = mk_rflags true true.
 Proof. vm_compute. reflexivity. Qed.
@@ -252,6 +266,16 @@ Example C17_deepcopy_hyp_satisfiable :
   problem_closed 0 [mk_obj 1 [(0, 1)]; mk_obj 2 [(0, 0); (0, 1)]] = true
   /\ copy_problem true 0 3 [mk_obj 1 [(0, 1)]; mk_obj 2 [(0, 0); (0, 1)]] = [mk_obj 1 [(3, 1)]; mk_obj 2 [(3, 0); (3, 1)]].
 Proof. vm_compute. split; reflexivity. Qed.
+
+(* what a stored caller's container means in the model: a reference into another problem (the hypothesis
+   [act_local] of C17_disjoint is exactly what such an API call violates): an edit through it reaches the other problem *)
+Definition st_two : state := mk_state [] [(0, Some [mk_obj 1 []]); (1, Some [mk_obj 2 []; mk_obj 5 []])] [].
+Example C17_shared_argument_leaks :
+  let ops := [mk_op 1 0 0 None (HLink 0 (0, 0)); mk_op 1 0 0 None (HSetVia 0 0 99); mk_op 0 0 0 None HNone] in
+  forallb act_local ops = false /\
+  outputs_of (Nat.eqb 0) (snd (run Globals.table st_two ops))
+  <> outputs_of (Nat.eqb 0) (snd (run Globals.table st_two (ops_of (Nat.eqb 0) ops))).
+Proof. vm_compute. split; [reflexivity | discriminate]. Qed.
 
 (* copy hooks that share structure would break isolation (why the table must list none) *)
 Example C17_shallow_copy_leaks :
